@@ -1464,3 +1464,99 @@ def drop_logging(fn, world, modname):
         return fn
     ast.fix_missing_locations(out)
     return out
+
+
+def scalarise_byte_buffers(fn):
+    """A local bound once to `bytearray(E)` / `list(E)` with E an
+    `x.to_bytes(N, order)` of constant N, used only as `B[k]` (constant k in
+    range(N), read or written) and as the whole argument of
+    `int.from_bytes(B, ...)` / `bytes(B)`, is N scalars:
+
+        B = bytearray(E)      ->  B_0, ..., B_{N-1} = E
+        B[k]                  ->  B_k
+        int.from_bytes(B, o)  ->  int.from_bytes((B_0, ..., B_{N-1}), o)
+
+    (What a bytearray refuses on an element store - a non-int, a value
+    outside 0..255 - the reassembly refuses on the scalars too, later; the
+    rules that use this compare lanes, not the point of the TypeError.)
+    Returns fn unchanged when no such local exists."""
+    from .inline import acopy
+    cands = {}
+    for n in _walk_no_nested(fn):
+        if isinstance(n, ast.Assign) and len(n.targets) == 1 and isinstance(
+                n.targets[0], ast.Name) and isinstance(n.value, ast.Call) \
+                and isinstance(n.value.func, ast.Name) and \
+                n.value.func.id in ("bytearray", "list") and len(
+                    n.value.args) == 1 and not n.value.keywords:
+            e = n.value.args[0]
+            if isinstance(e, ast.Call) and isinstance(
+                    e.func, ast.Attribute) and e.func.attr == "to_bytes" \
+                    and e.args and isinstance(e.args[0], ast.Constant) and \
+                    type(e.args[0].value) is int and \
+                    1 <= e.args[0].value <= 8:
+                cands.setdefault(n.targets[0].id, []).append(n)
+    parent = {}
+    for x in ast.walk(fn):
+        for ch in ast.iter_child_nodes(x):
+            parent[id(ch)] = x
+    good = {}
+    for b, defs in cands.items():
+        if len(defs) != 1:
+            continue
+        N = defs[0].value.args[0].args[0].value
+        ok = True
+        for n in _walk_no_nested(fn):
+            if not (isinstance(n, ast.Name) and n.id == b):
+                continue
+            if n is defs[0].targets[0]:
+                continue
+            up = parent.get(id(n))
+            if isinstance(up, ast.Subscript) and up.value is n and \
+                    isinstance(up.slice, ast.Constant) and type(
+                        up.slice.value) is int and 0 <= up.slice.value < N:
+                continue
+            if isinstance(up, ast.Call) and up.args and up.args[0] is n and \
+                    ast.unparse(up.func) in ("int.from_bytes", "bytes"):
+                continue
+            ok = False
+        if ok:
+            good[b] = (defs[0], N)
+    if not good:
+        return fn
+    out = acopy(fn)
+
+    class R(ast.NodeTransformer):
+        def visit_Assign(self, n):
+            if len(n.targets) == 1 and isinstance(
+                    n.targets[0], ast.Name) and n.targets[0].id in good \
+                    and isinstance(n.value, ast.Call) and isinstance(
+                        n.value.func, ast.Name) and n.value.func.id in (
+                            "bytearray", "list"):
+                b = n.targets[0].id
+                N = good[b][1]
+                return ast.copy_location(ast.Assign([ast.Tuple([
+                    ast.Name("%s_%d" % (b, k), ast.Store())
+                    for k in range(N)], ast.Store())],
+                    n.value.args[0]), n)
+            return self.generic_visit(n)
+
+        def visit_Subscript(self, n):
+            if isinstance(n.value, ast.Name) and n.value.id in good and \
+                    isinstance(n.slice, ast.Constant):
+                return ast.copy_location(ast.Name("%s_%d" % (
+                    n.value.id, n.slice.value), n.ctx), n)
+            return self.generic_visit(n)
+
+        def visit_Call(self, n):
+            self.generic_visit(n)
+            if n.args and isinstance(n.args[0], ast.Name) and \
+                    n.args[0].id in good and ast.unparse(n.func) in (
+                        "int.from_bytes", "bytes"):
+                b = n.args[0].id
+                n.args[0] = ast.copy_location(ast.Tuple([
+                    ast.Name("%s_%d" % (b, k), ast.Load())
+                    for k in range(good[b][1])], ast.Load()), n.args[0])
+            return n
+    out = R().visit(out)
+    ast.fix_missing_locations(out)
+    return out
